@@ -204,20 +204,38 @@ func (s *handler) handleReader(ctx context.Context, r io.Reader, w io.Writer, rp
 			return
 		}
 
-		_, _ = w.Write([]byte("[")) // todo consider handling this error
-		for idx, req := range reqs {
-			if req.ID, err = normalizeID(req.ID); err != nil {
-				rpcError(wf, &req, rpcParseError, xerrors.Errorf("failed to parse ID: %w", err))
-				return
+		// Each element's response is buffered so that separators are only
+		// written between responses which actually exist (notifications
+		// produce none), and nothing at all is written when every element
+		// was a notification.
+		wrote := false
+		for _, req := range reqs {
+			var respBuf bytes.Buffer
+			bwf := func(cb func(io.Writer)) {
+				cb(&respBuf)
 			}
 
-			s.handle(ctx, req, wf, rpcError, func(bool) {}, nil)
+			if req.ID, err = normalizeID(req.ID); err != nil {
+				rpcError(bwf, &req, rpcParseError, xerrors.Errorf("failed to parse ID: %w", err))
+			} else {
+				s.handle(ctx, req, bwf, rpcError, func(bool) {}, nil)
+			}
 
-			if idx != len(reqs)-1 {
+			if respBuf.Len() == 0 {
+				continue
+			}
+
+			if !wrote {
+				_, _ = w.Write([]byte("[")) // todo consider handling this error
+				wrote = true
+			} else {
 				_, _ = w.Write([]byte(",")) // todo consider handling this error
 			}
+			_, _ = w.Write(respBuf.Bytes()) // todo consider handling this error
 		}
-		_, _ = w.Write([]byte("]")) // todo consider handling this error
+		if wrote {
+			_, _ = w.Write([]byte("]")) // todo consider handling this error
+		}
 	} else {
 		var req request
 		if err := json.NewDecoder(bufferedRequest).Decode(&req); err != nil {
